@@ -803,20 +803,8 @@ def _close_effect(p, fn, n) -> bool:
     return False
 
 
-def rule_repack(ctx) -> RuleResult:
-    res = RuleResult(
-        "C10.REPACK",
-        "C10",
-        "everything Workspace.close does to the file besides closing the handle — the final saves and the h5repack "
-        "rewrite (subprocess, unlink, move) — is conditional on the handle having been opened writable",
-        floor=2,
-    )
-    p = ctx.p
-    raw = p.func("Workspace.close")
-    cl = ctx.view(raw)
-    # decided on paths: assume the handle was opened 'r'; no effect may then be reachable.  The mode may be read once into
-    # a local / an attribute, tested positively (nested ifs) or negatively (guard clauses), in close() or in a private helper.
-    paths = Paths(cl, texts=_handle_mode_facts(cl), project=p)
+def _close_effects(p, raw, cl, paths) -> list:
+    """(CFG node, call) for everything the (normalised) Workspace.close does to the file besides closing the handle."""
     helpers_with_effects = {}
 
     def is_effect(n) -> bool:
@@ -838,6 +826,24 @@ def rule_repack(ctx) -> RuleResult:
     effects = [(n, e) for n, hits in paths.nodes_with(is_effect) if n in live for e in hits]
     if len(effects) < 2:
         raise AnalysisError("Workspace.close: save / repack effects not found")
+    return effects
+
+
+def rule_repack(ctx) -> RuleResult:
+    res = RuleResult(
+        "C10.REPACK",
+        "C10",
+        "everything Workspace.close does to the file besides closing the handle — the final saves and the h5repack "
+        "rewrite (subprocess, unlink, move) — is conditional on the handle having been opened writable",
+        floor=2,
+    )
+    p = ctx.p
+    raw = p.func("Workspace.close")
+    cl = ctx.view(raw)
+    # decided on paths: assume the handle was opened 'r'; no effect may then be reachable.  The mode may be read once into
+    # a local / an attribute, tested positively (nested ifs) or negatively (guard clauses), in close() or in a private helper.
+    paths = Paths(cl, texts=_handle_mode_facts(cl), project=p)
+    effects = _close_effects(p, raw, cl, paths)
     reach = paths.reachable()
     for n, e in effects:
         ok = n not in reach
@@ -846,6 +852,131 @@ def rule_repack(ctx) -> RuleResult:
             res.find("Workspace", "close", f"{unparse(e.func)}(...) runs whatever the mode of the handle", f"{cl.module.relpath}:{e.lineno}",
                      "closing a workspace that was opened read-only rewrites the file (a pending repack flag, set in memory by a refused edit "
                      "of a concatenated entity, is enough): the bytes of a file opened 'r' change")
+    return res
+
+
+def asked_mode_facts(ctx) -> dict:
+    """What Workspace.open remembers of the mode the workspace was ASKED for, as facts that hold after open() was asked
+    for 'r' (explicitly, or by default from a constructor mode 'r'): {"self.<attribute>": value}.  An attribute counts when
+    open() stores into it, on every path that binds a handle, a value that is determined by the requested mode, and
+    nothing but open() / __init__ (and their private helpers) ever stores into it."""
+    p = ctx.p
+    raw = p.func("Workspace.open")
+    fn = ctx.view(raw)
+    s = fn.self_name
+    a = raw.node.args
+    if "mode" not in [x.arg for x in a.posonlyargs + a.args + a.kwonlyargs]:
+        raise AnalysisError("Workspace.open: the parameter mode= was not found")
+    ws = p.cls("Workspace")
+    runs = []
+    for init, texts in (({"mode": "r"}, {}), ({"mode": None}, {f"{s}._mode": "r"})):
+        texts = dict(texts)
+        texts[f"{s}._geoh5"] = FALSY  # not opened yet
+        paths = Paths(fn, texts=texts, project=p)
+        seen: dict = {}
+        where: dict = {}
+
+        def observe(n, env, paths=paths, seen=seen, where=where):
+            st = n.ast
+            if n.kind != "stmt" or not isinstance(st, (ast.Assign, ast.AnnAssign)) or st.value is None:
+                return
+            tgs = st.targets if isinstance(st, ast.Assign) else [st.target]
+            for t in tgs:
+                if _self_attr(fn, t, t.attr if isinstance(t, ast.Attribute) else ""):
+                    v = paths.value(st.value, env)
+                    seen.setdefault(t.attr, []).append(v)
+                    where.setdefault(t.attr, set()).add(n.id)
+
+        paths.reachable(init_env=init, observe=observe)
+        facts = {}
+        for attr, vals in seen.items():
+            v0 = vals[0]
+            if isinstance(v0, list) or not (v0 is None or isinstance(v0, (str, bool, int))):
+                continue
+            if any(type(v) is not type(v0) or v != v0 for v in vals):
+                continue
+            # every path that leaves open() normally (having bound a handle) passed the store
+            if paths.g.exit in paths.reachable(avoid=where[attr], init_env=init):
+                continue
+            facts[attr] = v0
+        runs.append(facts)
+    common = {k: v for k, v in runs[0].items() if k in runs[1] and runs[1][k] == v and type(runs[1][k]) is type(v)}
+
+    def own(f):
+        return f.cls is not None and ws in f.cls.mro and (f.prop or f.name) in ("open", "__init__")
+
+    out = {}
+    for attr, v in common.items():
+        foreign = False
+        for f in p.all_functions(scope_only=False):
+            for x in ast.walk(f.node):
+                if isinstance(x, ast.Attribute) and x.attr == attr and not isinstance(x.ctx, ast.Load):
+                    if not entered_only_through(ctx, f, own):
+                        foreign = True
+                elif isinstance(x, ast.Call) and isinstance(x.func, ast.Name) and x.func.id == "setattr" and len(x.args) >= 2 \
+                        and isinstance(x.args[1], ast.Constant) and x.args[1].value == attr and not entered_only_through(ctx, f, own):
+                    foreign = True
+        if not foreign:
+            out[attr] = v
+    return out
+
+
+def rule_asked(ctx) -> RuleResult:
+    res = RuleResult(
+        "C10.ASKED",
+        "C10",
+        "a workspace ASKED for mode 'r' is read-only whatever its HDF5 handle reports (a handle shared with another session of "
+        "the same process on the same file reports that session's mode, e.g. 'r+'): Workspace.open remembers the requested mode, "
+        "and with that memory alone the gateway refuses every writer function and Workspace.close flushes / repacks nothing",
+        floor=2,
+    )
+    p = ctx.p
+    facts = asked_mode_facts(ctx)
+    shown = {f"self.{k}": v for k, v in sorted(facts.items())}
+    res.inst(f"Workspace.open remembers the requested mode in {shown or 'nothing'}", nontrivial=True, ok=True)
+    # the gateway
+    raw = p.func("Workspace._io_call")
+    io = ctx.view(raw)
+    fun = raw.params[1] if len(raw.params) > 1 else None
+    base = Paths(io, project=p)
+    live = base.g.reachable()
+    calls = [n for n, _h in base.nodes_with(lambda x: isinstance(x, ast.Call) and isinstance(x.func, ast.Name) and base.text(x.func) == fun) if n in live]
+    if not calls:
+        raise AnalysisError("Workspace._io_call: the call fun(...) was not found")
+    used_modes = sorted({m for (_, _, _, m, k) in gate_sites(ctx) if k == "io_call" and m in WRITABLE} | {"r+", "a"})
+    s = io.self_name
+    leaks = []
+    for m in used_modes:
+        if not facts:
+            leaks.append(m)
+            continue
+        pm = Paths(io, texts={f"{s}.{k}": v for k, v in facts.items()}, names={"mode": m}, project=p)
+        ids = {n.id for n in pm.reachable()}
+        if any(c.id in ids for c in calls):
+            leaks.append(m)
+    ok = not leaks
+    res.inst(f"_io_call: asked for 'r', the call of a function needing {used_modes} is unreachable whatever the handle's mode", nontrivial=True, ok=ok)
+    if not ok:
+        res.find("Workspace", "_io_call", "a workspace asked for mode 'r' accepts writes when its handle reports another mode",
+                 f"{raw.module.relpath}:{calls[0].lineno}",
+                 "the guard consults only the mode reported by the h5py handle; when the file is already open 'r+' elsewhere in the "
+                 "process HDF5 shares the file object and the handle of a mode='r' workspace reports 'r+': setters, creations and "
+                 "removals through the read-only workspace reach the file")
+    # close
+    rawc = p.func("Workspace.close")
+    cl = ctx.view(rawc)
+    sc = cl.self_name
+    pc = Paths(cl, texts={f"{sc}.{k}": v for k, v in facts.items()}, project=p)
+    effects = _close_effects(p, rawc, cl, pc)
+    reach = pc.reachable() if facts else pc.g.reachable()
+    through = [(n, e) for n, e in effects if n in reach]
+    ok = not through
+    res.inst(f"Workspace.close: asked for 'r', none of its {len(effects)} saves / repack steps is reachable whatever the handle's mode", nontrivial=True, ok=ok)
+    if not ok:
+        res.find("Workspace", "close", "a workspace asked for mode 'r' is flushed / repacked at close when its handle reports another mode",
+                 f"{rawc.module.relpath}:{through[0][1].lineno}",
+                 "close() decides by the mode reported by the h5py handle only; with a handle shared in-process (file open 'r+' "
+                 "elsewhere) a workspace opened with mode='r' — e.g. by path2workspace — saves its root and may repack the file")
     return res
 
 
@@ -999,4 +1130,4 @@ def rule_load(ctx) -> RuleResult:
     return _load(ctx, "C10.LOAD", "C10")
 
 
-RULES = [rule_gate, rule_guard, rule_who, rule_open, rule_reopen, rule_funnel, rule_reader, rule_repack, rule_load]
+RULES = [rule_gate, rule_guard, rule_asked, rule_who, rule_open, rule_reopen, rule_funnel, rule_reader, rule_repack, rule_load]
